@@ -55,10 +55,10 @@ def nontrivial(case, impl):
 
 def run(ctx):
     ctx.equal = equal
-    obl = C.coq_obligations(ctx.pid, ["Extract/ExtractC02.vo"])
+    obl = C.coq_obligations(ctx.pid, ["Extract/ExtractC02.vo"], more_props=["C02Inv"])
     extra = {}
     if ctx.thorough:
-        extra.update(C.coqchk(ctx.pid))
+        extra.update(C.coqchk(ctx.pid, more_props=["C02Inv"]))
     corr = C.correspondence(ctx, "c02", nontrivial)
     ev = []
     if corr.get("ok"):
